@@ -132,11 +132,11 @@ impl Stdfs {
     pub fn exists<T: PathArg>(path: T) -> (r: bool)
         ensures r == (std_abs(path.pc()) is Some && os_stat_ok(abs_of(path.pc()), false)),     //@ clause stdfs.exists.asks_about_abs_path [C05]
 //@ body
-//@ item is_dir file=src/sys/fs/stdfs/mod.rs block="impl Stdfs" fn=is_dir props=C05,C10,C01,C12
+//@ item is_dir file=src/sys/fs/stdfs/mod.rs block="impl Stdfs" fn=is_dir props=C05,C10,C01,C12,C20
     pub fn is_dir<T: PathArg>(path: T) -> (r: bool)
         ensures r == (std_abs(path.pc()) is Some && os_stat_ok(abs_of(path.pc()), true) && !os_is_link(abs_of(path.pc())) && os_is_dir(abs_of(path.pc()), true)),     //@ clause stdfs.is_dir.asks_about_abs_path_excluding_links [C05,C10]
 //@ body
-//@ item is_file file=src/sys/fs/stdfs/mod.rs block="impl Stdfs" fn=is_file props=C05,C10,C01,C12
+//@ item is_file file=src/sys/fs/stdfs/mod.rs block="impl Stdfs" fn=is_file props=C05,C10,C01,C12,C20
     pub fn is_file<T: PathArg>(path: T) -> (r: bool)
         ensures r == (std_abs(path.pc()) is Some && os_stat_ok(abs_of(path.pc()), true) && !os_is_link(abs_of(path.pc())) && os_is_file(abs_of(path.pc()), true)),     //@ clause stdfs.is_file.asks_about_abs_path_excluding_links [C05,C10]
 //@ body
